@@ -66,6 +66,30 @@ Definition impl_innerprod_part_sp (ip_t_sp : ttensor V -> sparse V -> V) (p : pa
 Definition impl_innerprod_sum_sp ip_t_sp (parts : list part) (S : sparse V) : V :=
   sum_over v0 vadd parts (fun p => impl_innerprod_part_sp ip_t_sp p S).
 
+(* part.innerprod(K), K Kruskal: tensor / sptensor / ttensor .innerprod(ktensor) reverse the arguments (K.innerprod(part): the component loop);
+   sptensor.innerprod returns 0 before that when it stores nothing (the loop gives 0 as well); ktensor.innerprod(ktensor): Gram / Hadamard *)
+Definition impl_innerprod_part_k (p : part) (K : ktensor V) : V :=
+  match p with
+  | PD X => impl_innerprod_k_dense K X
+  | PS A => impl_innerprod_k_sp K A
+  | PK L => impl_innerprod_kk v0 vadd vmul L K
+  | PT T => impl_innerprod_k_t K T
+  end.
+Definition impl_innerprod_sum_k (parts : list part) (K : ktensor V) : V :=
+  sum_over v0 vadd parts (fun p => impl_innerprod_part_k p K).
+
+(* part.innerprod(T'), T' Tucker: tensor / sptensor .innerprod(ttensor) reverse the arguments (T'.innerprod(part), both sides of its size switch);
+   ktensor.innerprod(ttensor): the component loop over ttensor.ttv; ttensor.innerprod(ttensor): smaller core first *)
+Definition impl_innerprod_part_t (ip_t_sp : ttensor V -> sparse V -> V) (p : part) (T' : ttensor V) : V :=
+  match p with
+  | PD X => impl_innerprod_t_dense v0 vadd vmul T' X
+  | PS A => ip_t_sp T' A
+  | PK K => impl_innerprod_k_t K T'
+  | PT T => impl_innerprod_tt v0 vadd vmul T T'
+  end.
+Definition impl_innerprod_sum_t ip_t_sp (parts : list part) (T' : ttensor V) : V :=
+  sum_over v0 vadd parts (fun p => impl_innerprod_part_t ip_t_sp p T').
+
 (* part.mttkrp(Us, n), entry (x, r) of the result matrix (Us: the factor list the kernels receive) *)
 Definition impl_mttkrp_part (p : part) (Us : list (@matrix V)) (n R x r : nat) : V :=
   match p with
